@@ -3,6 +3,8 @@ pub mod io {
     use vstd::prelude::*;
     #[verifier::external_body]
     pub struct Error { e: u8 }
+    #[verifier::external]
+    impl ::std::fmt::Debug for Error { fn fmt(&self, f: &mut ::std::fmt::Formatter<'_>) -> ::std::fmt::Result { Ok(()) } }
     #[derive(Clone, Copy)]
     pub enum ErrorKind { NotFound, PermissionDenied, AlreadyExists, InvalidData, InvalidInput, Other }
     impl PartialEq for ErrorKind {
